@@ -92,6 +92,22 @@ def _check(job):
         for f in f2:
             f['what'] = 'via make_edited() (the diff() path): ' + f['what']
         fails.extend(f2)
+        # the other tree builders take the same options: the generic Builder (pydiff.build_tree, BasicBuilder; the pickle
+        # loader goes through it too)
+        import graphtage
+        from graphtage import pydiff
+        from graphtage.builder import BasicBuilder
+        for bname, build in (('pydiff.build_tree', lambda x: pydiff.build_tree(x, graphtage.BuildOptions(**opt))),
+                             ('BasicBuilder.build_tree', lambda x: BasicBuilder(graphtage.BuildOptions(**opt)).build_tree(x))):
+            f3 = []
+            pa, pb = build(a), build(b)
+            _flags_ok(pa, opt, f3)
+            e3 = pa.edits(pb)
+            walk.refine(e3)
+            walk.walk(e3, pa, pb, opt, f3)
+            for f in f3:
+                f['what'] = f'trees built by {bname}: ' + f['what']
+            fails.extend(f3)
     except Exception as ex:
         fails.append({'what': f"{type(ex).__name__}: {ex}", 'class': f'c10-exception:{type(ex).__name__}'})
     for f in fails:
